@@ -534,3 +534,231 @@ def rule_tags_ast(rep: Report, rid="C08.ast") -> None:
         rep.ob(rid, f"{p}.tags are the items of the TagLine tokens of its own Tags child, token then item order, name = item text", ok,
                **_kw(b, mr[1]), expected=f"for token in {fmt(items(single(owner, 'Tags'), 'TagLine'), I)}: for item in token.matched_items: {{id, location, name: item.text}}",
                found=found)
+
+
+def rule_docstring_ast(rep: Report, rid="C13.ast") -> None:
+    b = bnf()
+    I = b.I
+    br = b.branches.get("DocString")
+    mr = _main_return(b, br) if br else None
+    if mr is None:
+        rep.ob(rid, "a DocString branch returns a node", False, **_kw(b), expected="dict", found="missing")
+        return
+    d = _dict_of(b, mr[0])
+    sep = ("first", b.node, "DocStringSeparator")
+    kw = _kw(b, mr[1])
+    get = lambda k: b.c(nf.strip_dropnone(d[k][0])) if k in d else None
+    # content
+    c = get("content")
+    ok = False
+    if c is not None and c[0] == "call" and c[1] == ".join" and is_const(c[2][0], "\n") and c[2][1][0] == "ref":
+        segs = nf.list_content(I, c[2][1], b.tree)
+        if len(segs) == 1 and segs[0][0] == "loop" and segs[0][2] == [("e", ("attr", ("elem", segs[0][1]), "matched_text"))]:
+            info = I.loops[segs[0][1]]
+            ok = b.c(info.get("iter")) == items(b.node, "Other") and not info.get("conds")
+    rep.ob(rid, "docString.content = the content lines joined by line feeds, all of them, in order", ok, **kw,
+           expected="'\\n'.join(t.matched_text for t in node.get_tokens('Other'))", found=fmt(c, I) if c else "missing")
+    mt = ("attr", sep, "matched_text")
+    want_forms = [("cond", ("cmp", "Gt", ("call", "len", (mt,), ()), const(0)), mt, NONE), ("cond", mt, mt, NONE)]
+    rep.ob(rid, "docString.mediaType = text after the opening delimiter, absent when empty", get("mediaType") in want_forms, **kw,
+           expected=fmt(want_forms[0], I), found=fmt(get("mediaType"), I) if get("mediaType") else "missing")
+    rep.eq(rid, "docString.delimiter = the opening delimiter", fmt(("attr", sep, "matched_keyword"), I), fmt(get("delimiter"), I) if get("delimiter") else None, **kw)
+    rep.eq(rid, "docString.location = the opening delimiter's location", fmt(("attr", sep, "location"), I), fmt(get("location"), I) if get("location") else None, **kw)
+    rep.ob(rid, "the doc string branch performs no mutation (nothing is trimmed or dropped)",
+           not [n for n, _ in nf.iter_nodes(br.tree) if n[0] == "mutate"], **_kw(b, br.line), expected="no pop/remove",
+           found=[(n[2], n[4]) for n, _ in nf.iter_nodes(br.tree) if n[0] == "mutate"])
+
+
+def _rows_list(b: BuilderNF, br: Branch):
+    """(rows list ref, row loop id) built in a table branch."""
+    I = b.I
+    for n, ctx in nf.iter_nodes(br.tree):
+        if n[0] == "alloc":
+            o = I.obj(n[1])
+            if isinstance(o, HList) and len(o.segs) == 1 and o.segs[0][0] == "loop":
+                lid = o.segs[0][1]
+                if b.c(I.loops[lid].get("iter")) == items(b.node, "TableRow"):
+                    return n[1], lid
+    return None, None
+
+
+def rule_rect(rep: Report, rid="C12.rect") -> None:
+    """Every table (data table, examples table) passes the cell-count check: each row is compared with the first, in order,
+    and the first deviating row's location is reported."""
+    b = bnf()
+    I = b.I
+    for p in ("DataTable", "ExamplesTable"):
+        br = b.branches.get(p)
+        if br is None:
+            rep.ob(rid, f"{p}: a branch exists", False, **_kw(b), expected="branch", found="missing")
+            continue
+        rows, rl = _rows_list(b, br)
+        kw = _kw(b, br.line)
+        if rows is None:
+            rep.ob(rid, f"{p}: rows are built from the TableRow tokens in order", False, **kw,
+                   expected="[row(token) for token in node.get_tokens('TableRow')]", found="no such list")
+            continue
+        info = I.loops[rl]
+        rep.ob(rid, f"{p}: every TableRow token becomes a row", not info.get("conds"), **kw, expected="unfiltered", found=info.get("conds"))
+        raises = [(n, ctx) for n, ctx in nf.iter_nodes(br.tree) if n[0] == "raise"]
+        good = 0
+        detail = []
+        for n, ctx in raises:
+            loops = nf.loops_in_ctx(ctx)
+            if not loops:
+                detail.append("raise outside a row loop")
+                continue
+            lid = loops[-1]
+            li = I.loops[lid]
+            el = ("elem", lid)
+            gs = nf.guards_in_ctx(ctx)
+            first_count = ("call", "len", (("item", ("item", rows, const(0)), const("cells")),), ())
+            this_count = ("call", "len", (("item", el, const("cells")),), ())
+            differs = [(("cmp", "Eq", this_count, first_count), False), (("cmp", "Eq", first_count, this_count), False)]
+            exc = n[1]
+            loc = None
+            for m2, c2 in nf.iter_nodes(br.tree):
+                if m2[0] == "setattr" and m2[1] == exc and m2[2] == "location":
+                    loc = m2[3]
+            ok = li.get("iter") == rows and not li.get("conds") and any(g in gs for g in differs) and loc == ("item", el, const("location"))
+            exc_cls = I.obj(exc).cls.name if isinstance(I.obj(exc), HInst) else None
+            detail.append({"iterates": fmt(li.get("iter"), I), "guards": [(fmt(c, I), p2) for c, p2 in gs], "location": fmt(loc, I) if loc else None, "exception": exc_cls})
+            if ok and exc_cls == "AstBuilderException":
+                good += 1
+        rep.ob(rid, f"{p}: a row whose cell count differs from the first row's raises at that row, inside the in-order scan", good == 1, **kw,
+               expected="for row in rows: if len(row.cells) != len(rows[0].cells): raise AstBuilderException(..., row.location)", found=detail or "no raise")
+        # the checked list is the one returned
+        ret_has = any(rows in b.deep_terms(v) for v, _, _ in br.returns)
+        rep.ob(rid, f"{p}: the rows that were checked are the rows returned", ret_has, **kw, expected="same list", found="returned value does not contain the checked list")
+
+
+def rule_locations(rep: Report, rid="C04.items") -> None:
+    """Tag and cell locations take the item's column on the token's line; rows, steps and keyword lines use the token location."""
+    b = bnf()
+    I = b.I
+
+    def item_loc(tok, it):
+        col = ("item", it, const("column"))
+        return col, tok
+
+    checked = 0
+    for p, br in b.branches.items():
+        for n, ctx in nf.iter_nodes(br.tree):
+            if n[0] != "alloc":
+                continue
+            d = nf.resolve_ref_dict(I, n[1], b.tree)
+            if not d or "location" not in d:
+                continue
+            loc = nf.strip_dropnone(d["location"][0])
+            keys = set(d)
+            if keys == {"id", "location", "name"} or keys == {"location", "value"}:
+                what = "tag" if "name" in keys else "cell"
+                loops = nf.loops_in_ctx(ctx)
+                ok = False
+                if len(loops) >= 2:
+                    tok, it = ("elem", loops[-2]), ("elem", loops[-1])
+                    col = ("item", it, const("column"))
+                    ld = None
+                    if loc[0] == "cond" and loc[1] == col and loc[3] == ("attr", tok, "location"):
+                        ld = nf.resolve_ref_dict(I, loc[2], b.tree)
+                    elif loc[0] == "ref":
+                        ld = nf.resolve_ref_dict(I, loc, b.tree)
+                    ok = ld is not None and set(ld) == {"line", "column"} and ld["column"][0] == col \
+                        and ld["line"][0] == ("item", ("attr", tok, "location"), const("line"))
+                checked += 1
+                rep.ob(rid, f"{p}: a {what}'s location is (its token's line, the {what}'s own column)", ok, **_kw(b, n[2]),
+                       expected="{'line': token.location['line'], 'column': item['column']}", found=fmt(loc, I))
+            elif keys == {"id", "location", "cells"}:
+                loops = nf.loops_in_ctx(ctx)
+                ok = bool(loops) and loc == ("attr", ("elem", loops[-1]), "location")
+                checked += 1
+                rep.ob(rid, f"{p}: a table row's location is its token's location", ok, **_kw(b, n[2]), expected="token.location", found=fmt(loc, I))
+    rep.floor("located tag/cell/row constructions", checked, 8)
+    # DataTable location = first row's
+    br = b.branches.get("DataTable")
+    mr = _main_return(b, br) if br else None
+    if mr:
+        d = _dict_of(b, mr[0])
+        rows, rl = _rows_list(b, br)
+        loc = nf.strip_dropnone(d["location"][0]) if "location" in d else None
+        rep.ob(rid, "a data table's location is its first row's location", rows is not None and loc == ("item", ("item", rows, const(0)), const("location")),
+               **_kw(b, mr[1]), expected="rows[0]['location']", found=fmt(loc, I) if loc else None)
+
+
+def rule_ids(rep: Report, rid_order="C11.order", rid_src="C11.src") -> None:
+    """Builder side of C11: ids are drawn only while transforming a finished node; within a node, own tags first
+    (token then item order), then the node; rows in row order; every draw is some emitted node's id."""
+    b = bnf()
+    I = b.I
+    with_id = {"Step", "Background", "ScenarioDefinition", "ExamplesDefinition", "Rule"}
+    ndraw = 0
+    for p, br in b.branches.items():
+        draws = [(n, ctx) for n, ctx in nf.iter_nodes(br.tree) if n[0] == "draw"]
+        ndraw += len(draws)
+        seen = set()
+        used = set()
+        for v, line, gs in br.returns:
+            for t in b.deep_terms(v, seen):
+                if t[0] == "drawn":
+                    used.add(t[1])
+        for n, ctx in draws:
+            rep.ob(rid_src, f"{p}: every id drawn becomes the id of a node in the returned value", n[1] in used, **_kw(b, n[2]),
+                   expected="draw flows into a returned 'id' field", found="drawn id is discarded" if n[1] not in used else "used")
+            rep.ob(rid_src, f"{p}: ids come from the builder's own id_generator", n[3] == ("attr", b.selft, "id_generator"), **_kw(b, n[2]),
+                   expected="self.id_generator", found=fmt(n[3], I) if n[3] else None)
+        mr = _main_return(b, br)
+        d = _dict_of(b, mr[0]) if mr else None
+        if p in with_id:
+            nid = nf.strip_dropnone(d["id"][0]) if d and "id" in d else None
+            rep.ob(rid_src, f"{p}: the node's id is a freshly drawn id", nid is not None and nid[0] == "drawn", **_kw(b, br.line),
+                   expected="self.id_generator.get_next_id()", found=fmt(nid, I) if nid else "no id field")
+            others = [n[1] for n, ctx in draws if nid is None or n[1] != nid[1]]
+            if nid is not None and nid[0] == "drawn" and others:
+                rep.ob(rid_order, f"{p}: the ids of its own tags are drawn before the node's id", max(others) < nid[1], **_kw(b, br.line),
+                       expected="tags (token, item order), then the node", found=f"node draw #{nid[1]}, other draws {sorted(others)}")
+            # guards: the node id is drawn on every path that returns the node
+    rep.floor("builder id draws", ndraw, 9)
+    # ids are drawn only under transform_node
+    f = facts()
+    cls = f.cls(BQ)
+    reach = set()
+    work = ["transform_node"]
+    import ast as _ast
+    while work:
+        nm = work.pop()
+        if nm in reach:
+            continue
+        reach.add(nm)
+        fi = cls.find_method(nm)
+        if fi is None:
+            continue
+        for n in _ast.walk(fi.node):
+            if isinstance(n, _ast.Call) and isinstance(n.func, _ast.Attribute) and isinstance(n.func.value, _ast.Name) and n.func.value.id in ("self", "cls"):
+                work.append(n.func.attr)
+    for c in cls.mro():
+        for fi in c.methods.values():
+            has = any(isinstance(n, _ast.Attribute) and n.attr == "get_next_id" for n in _ast.walk(fi.node))
+            if has:
+                rep.ob(rid_order, f"{fi.name}: ids are drawn only while a finished node is transformed (children before parents)", fi.name in reach,
+                       file=fi.file, line=fi.node.lineno, function=fi.qualname, expected="reachable from transform_node only", found=fi.name)
+    # end_rule: pop, transform, add to the parent -> a node is transformed when it is complete
+    I2 = new_interp()
+    q = f"{BQ}.end_rule"
+    fi = I2.facts.func(q)
+
+    def tn(I_, st_, fi_, args, kwargs, n, tree_):
+        tree_.append(("transform", tuple(args), getattr(n, "lineno", None)))
+        return ("transformed", args[1] if len(args) > 1 else None)
+    I2.intrinsics[f"{BQ}.transform_node"] = tn
+    tree, rv, st = I2.run(q)
+    rep.used_function(q)
+    selft = ("param", fi.params()[0])
+    stack = ("attr", selft, "stack")
+    ev = [n for n, _ in nf.iter_nodes(tree) if n[0] in ("mutate", "transform")]
+    popped = ("call", ".pop", (stack,), ())
+    ok = len(ev) == 3 and ev[0][0] == "mutate" and ev[0][1] == stack and ev[0][2] == "pop" and ev[1][0] == "transform" and ev[1][1][1] == popped \
+        and ev[2][0] == "mutate" and ev[2][2] == "append" and ev[2][3] == (("transformed", popped),) \
+        and canon(ev[2][1]) == ("items", ("item", stack, const(-1)), ("attr", popped, "rule_type"))
+    rep.ob(rid_order, "end_rule pops the finished node, transforms it once and files the result in its parent under the node's rule type", ok,
+           file=fi.file, line=fi.node.lineno, function=q, expected="node = stack.pop(); current_node.add(node.rule_type, transform_node(node))",
+           found=[(e[0], e[2] if e[0] == "mutate" else None) for e in ev])
